@@ -4,6 +4,10 @@
 //! Nothing here draws from a clock or from the OS for anything that reaches
 //! a simulated run; `Instant` is only used for wall-time reporting.
 
+pub mod core;
+pub mod driver;
+pub mod panichook;
+
 pub use serde_json::{json, Map, Value as Json};
 use std::collections::BTreeMap;
 
